@@ -365,6 +365,40 @@ func reasmModelLines(c RCase, obs []opObs, eager bool) []string {
 
 // ---- generators -------------------------------------------------------------
 
+// genReasmFarJump: two histories on one Reassembler, the second one a long way from the first in the sequence space (half
+// of it, a quarter, just beyond the roll-over distance, anywhere). The first ends with Close, which delivers whatever is
+// buffered and after which pushes are still accepted: the buffered sequence numbers stay within one window at all
+// times, but what was delivered earlier, and the last delivered sequence number, are far from the window now in use.
+func genReasmFarJump(rng *rand.Rand, prop string) RCase {
+	c := genReasmCase(rng, prop, 25)
+	d := genReasmCase(rng, prop, 25)
+	jump := []uint32{1 << 31, 1<<31 - 2, 1<<31 + 3, 1 << 30, 3 << 30, 1 << 24, 1<<24 + 1, 1<<24 - 1, 1 << 25, rng.Uint32(), 0xFFFFFFFF - 1<<24 + 1, 0xFFFFFFFF - 1<<24 - 4}[rng.Intn(12)]
+	var rebase func(ops []ROp) []ROp
+	rebase = func(ops []ROp) []ROp {
+		out := make([]ROp, len(ops))
+		for i, op := range ops {
+			if op.K == "push" || op.K == "raw" || op.K == "rawbad" {
+				op.Seq = op.Seq - d.Base + c.Base + jump
+				op.ID += 100000
+			}
+			if len(op.Nest) > 0 {
+				op.Nest = rebase(op.Nest)
+			}
+			out[i] = op
+		}
+		return out
+	}
+	c.Ops = append(c.Ops, rebase(d.Ops)...)
+	// the history as a whole is not inside one window: the monitors that place sequence numbers relative to the base
+	// do not apply; the model (which orders as the library's Less does) decides, and it follows the library's sort for
+	// buffers of at most 12 events
+	c.InWindow = false
+	if c.Max > 11 {
+		c.Max = []int{0, 1, 2, 3, 5, 8, 11}[rng.Intn(7)]
+	}
+	return c
+}
+
 func genReasmCase(rng *rand.Rand, prop string, maxOps int) RCase {
 	c := RCase{}
 	small := []int{0, 1, 2, 3, 5, 8, 11}
@@ -1315,7 +1349,10 @@ func reasmFamily(ctx *Ctx) error {
 		}
 		keep := reasmStampRng
 		reasmStampRng = nil
-		sc := shrinkReasm(ctx, m, c, v.Kind)
+		sc := c
+		if os.Getenv("VERIF_NOSHRINK") == "" {
+			sc = shrinkReasm(ctx, m, c, v.Kind)
+		}
 		if v2 := runReasmCaseQuiet(ctx, m, sc); v2 != nil {
 			v2.Case = v.Case
 			v = v2
@@ -1480,6 +1517,10 @@ func reasmFamily(ctx *Ctx) error {
 	}
 	for i := 0; i < n && res.NumViolations() < 5; i++ {
 		c := genReasmCase(ctx.Rng, ctx.Prop, 60)
+		if i%5 == 4 && ctx.Prop != "C03" { // C03 is stated for histories within one window
+			c = genReasmFarJump(ctx.Rng, ctx.Prop)
+			res.Hist("far jump")
+		}
 		if i < 3 {
 			res.Sample(c)
 		}
